@@ -12,6 +12,7 @@ pub mod transpose;
 pub mod stamql;
 pub mod webanno;
 pub mod concurrent;
+pub mod untrusted;
 
 pub fn run(family: &str, opts: &Opts) -> Option<Report> {
     // "family@m<interval>s<0|1>" runs the family under a store configuration variant
@@ -46,6 +47,7 @@ fn run_base(family: &str, opts: &Opts) -> Option<Report> {
         "stamql" => Some(stamql::run(opts)),
         "webanno" => Some(webanno::run(opts)),
         "concurrent" => Some(concurrent::run(opts)),
+        "untrusted" => Some(untrusted::run(opts)),
         _ => None,
     }
 }
@@ -61,6 +63,7 @@ pub fn exec_line(line: &str) -> Option<String> {
         Some("dv") => Some(data::exec_line(line)),
         Some("ql") => Some(stamql::exec_line(line)),
         Some("wj") => Some(webanno::exec_line(line)),
+        Some("tid") => Some(untrusted::exec_line(line)),
         _ => None,
     }
 }
